@@ -7,4 +7,5 @@ INVARIANT Pinned
 INVARIANT WithinCLen
 INVARIANT AliasExact
 INVARIANT InputsDisjoint
+INVARIANT ScratchPrivate
 CHECK_DEADLOCK FALSE
